@@ -8,6 +8,16 @@ def run(ctx):
              "set operations, subqueries, CTEs, CASE/COALESCE/IN/BETWEEN/LIKE over <=2 tables x <=4 rows of the six types with NULLs and "
              "duplicates) plus VERIF_SEED-drawn statements from the restricted grammar; every engine outcome is judged by TLC against "
              "SqlSem.tla (bag equality, or tie-tolerant ORDER BY/LIMIT acceptance).")
+    import nameres                     # X01 "NameRes" sub-model (checks/nameres.py): which column a name denotes
+    nameres.run_sub(ctx)
 
 def replay(ctx, obj):
+    if obj.get("case", {}).get("kind") == "nameres":
+        import nameres
+        return nameres.replay_sub(ctx, obj)
     sqlcheck.replay_sql(ctx, obj)
+
+
+def selftest(ctx):
+    import nameres
+    return nameres.selftest_sub(ctx) or sqlprop.selftest(ctx, [])
